@@ -26,6 +26,7 @@ LEVEL_TEXT = (
     "a different kind of engine, merged in one engine after the other.  No absence claim beyond those bounds."
     "  The same upstream relation object is merged into a second time with a different operation of the same kind "
     "and a third time with the first one."
+    "  A family of sorts / selections whose expressions hold unhashable literal values (a constant list handed to a user-defined column function) is applied singly and in every adjacent pair."
 )
 LEVEL_NOTE = "trusts: the reference evaluator (vf/core/prog.py), decoding of library operations through public dataclass fields, Hypothesis"
 RULE = (
